@@ -505,7 +505,14 @@ class IMAPClientCommand:
         init method so that if we hit a parsing exception the actual object
         gets created at least and potentially has self.tag set.
         """
-        self._parse()
+        try:
+            self._parse()
+        except (ValueError, OverflowError) as exc:
+            # A syntactically plausible value that can not be converted (a
+            # date such as 31-Feb-2020, year 0000, a number with too many
+            # digits) is a syntax error in the command, not a server failure.
+            #
+            raise BadSyntax(value=str(exc)) from exc
         return self
 
     ####################################################################
